@@ -369,10 +369,6 @@ def configs(
     stacks = draw(stacks_strategy(n, sb_amt, bb_amt, short_bias,
                                   stack_styles))
     chip_t = draw(st.sampled_from(chips))
-    if chip_t in ('float', 'dec') and nboards == 3:
-        # known finding G1 (rounding assert with real-valued chips when a
-        # pot is divided by 3 boards): excluded by construction
-        chip_t = 'frac'
     rk = None
     if rake and draw(st.integers(0, 3)) == 0:
         num, den = draw(st.sampled_from([(0, 1), (3, 100), (5, 100),
